@@ -291,7 +291,10 @@ theorem vstep_replace (f : Forest) (a b : Nat) : VStep S Any f (f.replace a b).1
           rw [hi] at h2
           simp only
           cases r with
-          | ok => exact (h1.trans h2).trans (vstep_removeConsolidate_any _ _ _)
+          | ok =>
+            cases f.nextSibling a with
+            | none => exact h1.trans h2
+            | some n => exact (h1.trans h2).trans (vstep_removeConsolidate_any _ _ _)
           | err e => exact h1.trans h2
           | panic => exact h1.trans h2
 
